@@ -503,7 +503,55 @@ func (s *rqSim) run(steps int) {
 		s.poll(id)
 	}
 	s.emit(rqEv{Op: "Final"})
+	if s.tid%4 == 3 {
+		s.restartCtx()
+	}
 	s.stress()
+}
+
+// restartCtx: a read request is batched and forwarded to the leader, then the process is restarted (new
+// tables, the clock starts again) and a read of the new incarnation is batched at the same tick. The leader's
+// answer to the batch of the previous incarnation arrives afterwards: it belongs to nobody and must release
+// nothing (the context of a batch must be unique across incarnations). Judged like every other step: a
+// Completed read needs a ready report for the context its own batch was registered under.
+func (s *rqSim) restartCtx() {
+	s.emit(rqEv{Op: "Init", NC: s.nc, Shards: pendingProposalShards})
+	batch := func() (uint64, pb.SystemCtx, int) {
+		s.setup()
+		s.tick = 0
+		s.doTick(5)
+		r, err := s.reads.read(20)
+		ev := rqEv{Op: "Read", To: 20, Err: errName(err)}
+		if err != nil {
+			s.emit(ev)
+			return 0, pb.SystemCtx{}, 0
+		}
+		ev.Oid, ev.Rid = s.accept(r)
+		s.emit(ev)
+		reqs := s.readQ.get()
+		rids := []int{}
+		for _, q := range reqs {
+			rids = append(rids, s.ridOf[s.oid(q)])
+		}
+		s.emit(rqEv{Op: "RIGet", Rids: rids})
+		ctx := s.reads.nextCtx()
+		s.reads.add(ctx, reqs)
+		id := uint64(len(s.ctxs) + 1)
+		s.ctxs = append(s.ctxs, id)
+		s.sysctx[id] = ctx
+		s.emit(rqEv{Op: "RIAdd", Ctx: id, N: ctx.High})
+		return id, ctx, ev.Oid
+	}
+	idA, ctxA, _ := batch()
+	_, _, oidB := batch() // the restart: fresh tables, same tick
+	if idA == 0 || oidB == 0 {
+		return
+	}
+	s.reads.addReady([]pb.ReadyToRead{{Index: 3, SystemCtx: ctxA}})
+	s.emit(rqEv{Op: "RIReady", Ctx: idA, N: 3})
+	s.reads.applied(10)
+	s.emit(rqEv{Op: "RIApplied", N: 10})
+	s.poll(oidB)
 }
 
 // commitRace: the commit worker reports a proposal committed (proposalShard.committed: look the request up,
